@@ -442,6 +442,8 @@ struct Track {
     held_writes: usize,
     planted: bool,
     writes_since_restart: usize,
+    /// unsubscribed in the CURRENT incarnation (not served although the directory is there: expected)
+    unsub_here: bool,
 }
 
 struct Image {
@@ -461,6 +463,16 @@ struct World {
     tags: Vec<String>,
     lifecycles: usize,
     n_dirs: usize,
+    /// the initial query of the tracked subscription is known to have finished
+    eoq: bool,
+    /// keys with an accepted candidate that may not have been applied yet -> written after the tripwire?
+    inflight: BTreeMap<u64, bool>,
+    held_keys: Vec<u64>,
+    inconclusive: Option<String>,
+    /// the node's process was SIGKILLed (thorough tier): its directory is there, nothing runs
+    dead: bool,
+    /// killed somewhere inside the stop sequence: 1 = dead, 2 = restarted; only `restart live` and `check` make sense
+    racy: u8,
 }
 
 fn wait_until<F: FnMut() -> Result<bool, String>>(deadline: Duration, mut f: F) -> Result<bool, String> {
@@ -480,8 +492,29 @@ impl World {
     fn new() -> Result<World, String> {
         let tmp = TmpDir::new("c13");
         let node = tmp.path().join("n0");
-        let inc = start_inc(&node)?;
-        Ok(World { tmp, inc: Some(inc), node, images: BTreeMap::new(), track: None, origin: Origin::Fresh, fails: vec![], tags: vec![], lifecycles: 0, n_dirs: 1 })
+        Self::new_at(tmp, node, true)
+    }
+
+    fn new_at(tmp: TmpDir, node: PathBuf, start: bool) -> Result<World, String> {
+        let inc = if start { Some(start_inc(&node)?) } else { None };
+        Ok(World {
+            tmp,
+            inc,
+            node,
+            images: BTreeMap::new(),
+            track: None,
+            origin: Origin::Fresh,
+            fails: vec![],
+            tags: vec![],
+            lifecycles: 0,
+            n_dirs: 1,
+            eoq: false,
+            inflight: BTreeMap::new(),
+            held_keys: vec![],
+            inconclusive: None,
+            dead: !start,
+            racy: 0,
+        })
     }
 
     fn up(&self) -> bool {
@@ -548,7 +581,19 @@ impl World {
         Ok("ok".into())
     }
 
-    fn op_write(&mut self, spec: &str) -> Result<String, String> {
+    fn registered(&self) -> bool {
+        match (&self.track, &self.inc) {
+            (Some(t), Some(inc)) if !t.planted && !inc.exited => inc.agent().subs_manager().get(&t.id).is_some(),
+            _ => false,
+        }
+    }
+
+    /// the matcher can be brought to quiescence now
+    fn syncable(&self) -> bool {
+        self.up() && self.registered() && !self.inc.as_ref().unwrap().tripped && self.inc.as_ref().unwrap().held.is_empty() && self.eoq
+    }
+
+    fn op_write(&mut self, spec: &str, and_sync: bool) -> Result<String, String> {
         if !self.up() || self.inc.as_ref().unwrap().exited {
             return Err("bad-op".into());
         }
@@ -574,19 +619,23 @@ impl World {
         }
         let before = cur.clone();
         let mut sqls = vec![];
+        let mut keys = vec![];
         for (k, v) in &kvs {
             match (cur.get(k).copied(), v) {
                 (None, Some(v)) => {
                     sqls.push(format!("INSERT INTO t (id, b) VALUES ({k}, {v})"));
                     cur.insert(*k, *v);
+                    keys.push(*k);
                 }
                 (Some(old), Some(v)) if old != *v => {
                     sqls.push(format!("UPDATE t SET b = {v} WHERE id = {k}"));
                     cur.insert(*k, *v);
+                    keys.push(*k);
                 }
                 (Some(_), None) => {
                     sqls.push(format!("DELETE FROM t WHERE id = {k}"));
                     cur.remove(k);
+                    keys.push(*k);
                 }
                 _ => {}
             }
@@ -595,29 +644,51 @@ impl World {
             return Ok("noop".into());
         }
         let held = !self.inc.as_ref().unwrap().held.is_empty();
-        let registered = match &self.track {
-            Some(t) if !t.planted => {
-                let inc = self.inc.as_ref().unwrap();
-                inc.agent().subs_manager().get(&t.id).is_some()
+        let tripped = self.inc.as_ref().unwrap().tripped;
+        let registered = self.registered();
+        // a key that already has a candidate in flight: the number of events would depend on how the
+        // matcher happens to batch them (except inside the drain, where everything is merged)
+        if registered || held {
+            for k in &keys {
+                let clash = match self.inflight.get(k) {
+                    Some(after_trip) => !(tripped && *after_trip && !held),
+                    None => false,
+                } || self.held_keys.contains(k);
+                if clash {
+                    self.inconclusive = Some("same-key-in-flight".into());
+                    return Ok("inconclusive".into());
+                }
             }
-            _ => false,
-        };
+        }
         let base = PENDING_HANDLES.load(std::sync::atomic::Ordering::SeqCst);
         let v = self.exec_sql(sqls)?;
         if v.is_none() {
             return Err("an effective transaction produced no version".into());
         }
-        if !held {
+        if held {
+            self.held_keys.extend(keys.iter().copied());
+        } else {
             self.wait_match_step(base);
+            if registered {
+                for k in &keys {
+                    self.inflight.insert(*k, tripped);
+                }
+            }
         }
         if let Some(t) = self.track.as_mut() {
             if !t.planted {
                 t.writes_since_restart += 1;
                 if held {
                     t.held_writes += 1;
-                } else if !registered && cur != before {
+                } else if !registered && cur != before && sub_dir(&self.node, t.id).exists() {
                     t.late_writes += 1;
                 }
+            }
+        }
+        if and_sync && self.syncable() {
+            let r = self.op_sync()?;
+            if r == "timeout" {
+                return Ok(r);
             }
         }
         Ok("ok".into())
@@ -648,32 +719,26 @@ impl World {
         if !self.up() || self.inc.as_ref().unwrap().held.is_empty() {
             return Err("bad-op".into());
         }
-        let base = {
-            let inc = self.inc.as_mut().unwrap();
-            inc.held.clear();
-            0usize.max(0)
-        };
-        let _ = base;
-        // the deferred match steps run now: wait for them (counted tasks)
-        let n = self.track.as_ref().map(|t| t.held_writes).unwrap_or(0);
+        let n = self.track.as_ref().map(|t| t.held_writes).unwrap_or(0).max(if self.held_keys.is_empty() { 0 } else { 1 });
+        let registered = self.registered();
+        let tripped = self.inc.as_ref().unwrap().tripped;
+        let c0 = PENDING_HANDLES.load(std::sync::atomic::Ordering::SeqCst);
+        self.inc.as_mut().unwrap().held.clear();
+        // the deferred match steps (counted `broadcast_changes` tasks) run now
         if n > 0 {
-            let registered = {
-                let t = self.track.as_ref().unwrap();
-                self.inc.as_ref().unwrap().agent().subs_manager().get(&t.id).is_some()
-            };
-            // broadcast_changes tasks are the only counted tasks that come and go here: wait until the count is stable
-            let mut last = usize::MAX;
-            let mut stable_since = Instant::now();
-            let _ = wait_until(Duration::from_secs(5), || {
-                let c = PENDING_HANDLES.load(std::sync::atomic::Ordering::SeqCst);
-                if c != last {
-                    last = c;
-                    stable_since = Instant::now();
+            let _ = wait_until(Duration::from_secs(5), || Ok(PENDING_HANDLES.load(std::sync::atomic::Ordering::SeqCst) + n <= c0));
+        }
+        let keys: Vec<u64> = std::mem::take(&mut self.held_keys);
+        if registered {
+            for k in keys {
+                if self.inflight.contains_key(&k) {
+                    self.inconclusive = Some("same-key-in-flight".into());
                 }
-                Ok(stable_since.elapsed() > Duration::from_millis(150))
-            });
-            let t = self.track.as_mut().unwrap();
-            if !registered {
+                self.inflight.insert(k, tripped);
+            }
+        }
+        if let Some(t) = self.track.as_mut() {
+            if !registered && t.held_writes > 0 && sub_dir(&self.node, t.id).exists() {
                 t.late_writes += t.held_writes;
             }
             t.held_writes = 0;
@@ -736,7 +801,11 @@ impl World {
             held_writes: 0,
             planted: false,
             writes_since_restart: 0,
+            unsub_here: false,
         });
+        self.eoq = !nowait;
+        self.inflight.clear();
+        self.origin = Origin::Fresh;
         self.lifecycles += 1;
         Ok("ok new".into())
     }
@@ -756,7 +825,7 @@ impl World {
             return Err("bad-op".into());
         }
         let inc = self.inc.as_ref().unwrap();
-        if inc.tripped || inc.agent().subs_manager().get(&t.id).is_none() {
+        if inc.tripped || !inc.held.is_empty() || inc.agent().subs_manager().get(&t.id).is_none() {
             return Err("bad-op".into());
         }
         let node = self.node.clone();
@@ -800,6 +869,8 @@ impl World {
         if !f.ids_contiguous {
             self.fail("change ids are not 1..=max".into());
         }
+        self.inflight.clear();
+        self.eoq = true;
         Ok(format!("ok last={}", f.max_id))
     }
 
@@ -834,6 +905,7 @@ impl World {
                 let tr = self.track.as_mut().unwrap();
                 tr.finished = true;
                 tr.last_at_finish = last;
+                self.inflight.clear();
             } else if !t.planted {
                 out = format!("ok state={}", meta_state(&node, t.id));
             }
@@ -857,7 +929,7 @@ impl World {
 
     fn op_unsub(&mut self, hold: bool) -> Result<String, String> {
         let Some(t) = self.track.clone() else { return Err("bad-op".into()) };
-        if !self.up() || t.planted || t.finished || self.inc.as_ref().unwrap().tripped {
+        if !self.up() || t.planted || t.finished || self.inc.as_ref().unwrap().tripped || !self.registered() {
             return Err("bad-op".into());
         }
         self.save_client();
@@ -889,9 +961,11 @@ impl World {
         let last = read_sub(&node, id, t.ncols).ok().map(|f| f.max_id);
         let tr = self.track.as_mut().unwrap();
         tr.unsubscribed = true;
+        tr.unsub_here = true;
         if !hold {
             tr.finished = true;
             tr.last_at_finish = last;
+            self.inflight.clear();
         }
         Ok(format!("ok state={st}"))
     }
@@ -912,6 +986,7 @@ impl World {
         let tr = self.track.as_mut().unwrap();
         tr.finished = true;
         tr.last_at_finish = last;
+        self.inflight.clear();
         Ok(format!("ok state={st}"))
     }
 
@@ -939,6 +1014,7 @@ impl World {
             held_writes: 0,
             planted: true,
             writes_since_restart: 0,
+            unsub_here: false,
         });
         self.lifecycles += 1;
         Ok("ok".into())
@@ -950,7 +1026,7 @@ impl World {
         if tag == "live" || self.images.contains_key(tag) || !tag.chars().all(|c| c.is_ascii_alphanumeric()) {
             return Err("bad-op".into());
         }
-        if self.inc.is_none() {
+        if (self.inc.is_none() && !self.dead) || self.racy != 0 {
             return Err("bad-op".into());
         }
         self.save_client();
@@ -980,6 +1056,8 @@ impl World {
             active = !t.finished;
             let phase = if t.planted {
                 "planted".to_string()
+            } else if self.dead {
+                format!("killed:{st}")
             } else if self.inc.as_ref().map(|i| i.exited).unwrap_or(true) {
                 format!("after-exit:{st}")
             } else if self.inc.as_ref().unwrap().wound {
@@ -1004,13 +1082,19 @@ impl World {
     }
 
     fn op_restart(&mut self, tag: &str) -> Result<String, String> {
+        if self.racy == 2 || (self.racy == 1 && tag != "live") {
+            return Err("bad-op".into());
+        }
         if tag == "live" {
             match &self.inc {
-                Some(i) if i.exited => {}
+                Some(i) if i.exited => {
+                    self.origin = Origin::Graceful;
+                }
+                None if self.dead => {} // origin was set by the kill
                 _ => return Err("bad-op".into()),
             }
             self.inc = None;
-            self.origin = Origin::Graceful;
+            self.dead = false;
         } else {
             let Some(img) = self.images.remove(tag) else { return Err("bad-op".into()) };
             // the original is abandoned
@@ -1023,6 +1107,7 @@ impl World {
             self.node = img.dir;
             self.track = img.track;
             self.origin = Origin::Abrupt { active: img.active };
+            self.dead = false;
         }
         if let Some(t) = self.track.as_mut() {
             t.writes_since_restart = 0;
@@ -1037,11 +1122,29 @@ impl World {
             }
             None => "ok",
         };
-        let out = out.to_string();
+        let out = if self.racy == 1 {
+            self.racy = 2;
+            "ok".to_string()
+        } else {
+            out.to_string()
+        };
+        let restored_now = self.track.as_ref().map(|t| self.inc.as_ref().unwrap().agent().subs_manager().get(&t.id).is_some()).unwrap_or(false);
+        self.inflight.clear();
+        self.held_keys.clear();
+        self.eoq = true;
         if let Some(t) = self.track.as_mut() {
-            let found = out == "ok restored";
+            t.unsub_here = false;
+            t.held_writes = 0;
+            let found = restored_now;
             if found {
                 t.finished = false;
+                // `run_restore` is a spawned task: it has written `running` when the subscription is back in business
+                let (node, id) = (self.node.clone(), t.id);
+                let ok = wait_until(LONG, || Ok(meta_state(&node, id) == "running"))?;
+                if !ok {
+                    let st = meta_state(&node, id);
+                    self.fail(format!("a restored subscription did not get back to state `running` within 30 s (state {st})"));
+                }
             }
         }
         Ok(out)
@@ -1080,6 +1183,21 @@ impl World {
         }
         let node = self.node.clone();
         let in_mgr = self.inc.as_ref().unwrap().agent().subs_manager().get(&t.id).is_some();
+        if in_mgr && !self.eoq {
+            return Err("bad-op".into());
+        }
+        if in_mgr && !self.inflight.is_empty() {
+            if self.syncable() {
+                let r = self.op_sync()?;
+                if r == "timeout" {
+                    return Ok(r);
+                }
+            } else {
+                self.inconclusive = Some("look-up-with-candidates-in-flight".into());
+                return Ok("inconclusive".into());
+            }
+        }
+        let t = self.track.clone().unwrap();
         let have_stream = self.inc.as_ref().unwrap().stream.is_some();
         let dir = sub_dir(&node, t.id).exists();
         // the client re-attaches with the last change id it has seen (or asks for everything)
@@ -1105,22 +1223,15 @@ impl World {
             _ => {}
         }
         if !found {
-            if dir {
+            if dir && !t.unsub_here {
                 self.fail("the subscription is not served but its directory was kept".into());
             }
             return Ok(format!("404 dir={}", if dir { "present" } else { "gone" }));
         }
         // served: it must be fresh
         let state = meta_state(&node, t.id);
-        let want = node_rows(&node, t.sql)?;
         // (a restored subscription has nothing to catch up with; a live one was brought to quiescence by `sync`)
-        let mut f = read_sub(&node, t.id, t.ncols)?;
-        if f.rows != want && t.writes_since_restart > 0 {
-            let _ = wait_until(Duration::from_secs(3), || {
-                f = read_sub(&node, t.id, t.ncols)?;
-                Ok(f.rows == node_rows(&node, t.sql)?)
-            });
-        }
+        let f = read_sub(&node, t.id, t.ncols)?;
         let want = node_rows(&node, t.sql)?;
         let rows_ok = f.rows == want;
         if !rows_ok {
@@ -1167,45 +1278,51 @@ struct Outcome {
     fails: Vec<String>,
     tags: Vec<String>,
     lifecycles: usize,
+    inconclusive: Option<String>,
 }
 
-fn run_ops(ops: &[String]) -> Result<Outcome, String> {
-    let mut w = World::new()?;
-    let mut outputs = vec![];
+fn run_from(w: &mut World, ops: &[String], outputs: &mut Vec<String>) -> Result<(), String> {
     let timing = std::env::var("HX_TIMING").is_ok();
     for op in ops {
         let t0 = Instant::now();
         let toks: Vec<&str> = op.split_whitespace().collect();
-        let r: Result<String, String> = match toks.as_slice() {
-            ["fill", n] => match n.parse::<u64>() {
-                Ok(n) => w.op_fill(n),
-                Err(_) => Err("bad-op".into()),
-            },
-            ["sub", q] => w.op_sub(q, false),
-            ["sub", q, "nowait"] => w.op_sub(q, true),
-            ["w", spec] => w.op_write(spec),
-            ["hold"] => w.op_hold(),
-            ["release"] => w.op_release(),
-            ["sync"] => w.op_sync(),
-            ["trip"] => w.op_trip(),
-            ["wind"] => w.op_wind(),
-            ["exit"] => w.op_exit(),
-            ["graceful"] => {
-                if !w.up() || w.inc.as_ref().unwrap().tripped {
-                    Err("bad-op".into())
-                } else {
-                    w.op_trip().and_then(|_| w.op_wind()).and_then(|o| w.op_exit().map(|_| o))
+        let racy_ok = matches!(toks.as_slice(), ["restart", "live"] | ["check"]);
+        let r: Result<String, String> = if w.racy != 0 && !racy_ok {
+            Err("bad-op".into())
+        } else {
+            match toks.as_slice() {
+                ["fill", n] => match n.parse::<u64>() {
+                    Ok(n) => w.op_fill(n),
+                    Err(_) => Err("bad-op".into()),
+                },
+                ["sub", q] => w.op_sub(q, false),
+                ["sub", q, "nowait"] => w.op_sub(q, true),
+                ["w", spec] => w.op_write(spec, true),
+                ["wp", spec] => w.op_write(spec, false),
+                ["hold"] => w.op_hold(),
+                ["release"] => w.op_release(),
+                ["sync"] => w.op_sync(),
+                ["trip"] => w.op_trip(),
+                ["wind"] => w.op_wind(),
+                ["exit"] => w.op_exit(),
+                ["graceful"] => {
+                    if !w.up() || w.inc.as_ref().unwrap().tripped {
+                        Err("bad-op".into())
+                    } else {
+                        w.op_trip().and_then(|_| w.op_wind()).and_then(|o| w.op_exit().map(|_| o))
+                    }
                 }
+                ["unsub"] => w.op_unsub(false),
+                ["unsub", "hold"] => w.op_unsub(true),
+                ["drophold"] => w.op_drophold(),
+                ["plant"] => w.op_plant(),
+                ["snapshot", tag] => w.op_snapshot(tag),
+                ["restart", tag] => w.op_restart(tag),
+                ["subinfo"] => w.observe(),
+                ["check"] => w.observe().map(|_| "ok".to_string()),
+                // (a `kill` op is handled before the case starts: only the first one counts)
+                _ => Err("bad-op".into()),
             }
-            ["unsub"] => w.op_unsub(false),
-            ["unsub", "hold"] => w.op_unsub(true),
-            ["drophold"] => w.op_drophold(),
-            ["plant"] => w.op_plant(),
-            ["snapshot", tag] => w.op_snapshot(tag),
-            ["restart", tag] => w.op_restart(tag),
-            ["subinfo"] => w.observe(),
-            ["check"] => w.observe().map(|_| "ok".to_string()),
-            _ => Err("bad-op".into()),
         };
         if timing {
             eprintln!("{:>6} ms  {}  -> {:?}", t0.elapsed().as_millis(), op, r);
@@ -1215,12 +1332,277 @@ fn run_ops(ops: &[String]) -> Result<Outcome, String> {
             Err(e) if e == "bad-op" => outputs.push("bad-op".into()),
             Err(e) => return Err(format!("at op `{op}`: {e}")),
         }
+        if w.inconclusive.is_some() {
+            break;
+        }
     }
+    Ok(())
+}
+
+fn finish(mut w: World, outputs: Vec<String>) -> Outcome {
+    let inconclusive = w.inconclusive.take();
     let fails = std::mem::take(&mut w.fails);
     let tags = std::mem::take(&mut w.tags);
     let lifecycles = w.lifecycles;
     drop(w);
-    Ok(Outcome { outputs, fails, tags, lifecycles })
+    Outcome { outputs, fails, tags, lifecycles, inconclusive }
+}
+
+fn run_ops(ops: &[String]) -> Result<Outcome, String> {
+    let mut w = World::new()?;
+    let mut outputs = vec![];
+    run_from(&mut w, ops, &mut outputs)?;
+    Ok(finish(w, outputs))
+}
+
+// ------------------------------------------------------------------------------------------------
+// thorough tier: the node under test is a child process that gets SIGKILLed
+// ------------------------------------------------------------------------------------------------
+
+#[derive(serde::Serialize, serde::Deserialize, Default)]
+struct ChildReport {
+    outputs: Vec<String>,
+    err: Option<String>,
+    fails: Vec<String>,
+    tags: Vec<String>,
+    lifecycles: usize,
+    inconclusive: Option<String>,
+    tracked: bool,
+    id: String,
+    qid_sql: String,
+    ncols: usize,
+    planted: bool,
+    finished: bool,
+    unsubscribed: bool,
+    last_at_finish: Option<u64>,
+    late_writes: usize,
+    client_view: BTreeMap<u64, Vec<String>>,
+    client_last: u64,
+    client_eoq: bool,
+    up: bool,
+    wound: bool,
+    /// the directory the node was running on when it was killed
+    node: String,
+}
+
+fn sql_static(sql: &str) -> &'static str {
+    for q in ["all", "slow"] {
+        let (s, _) = query_sql(q).unwrap();
+        if s == sql {
+            return s;
+        }
+    }
+    ""
+}
+
+/// `exec_case` of the CHILD: run the ops on the given node directory, report, then behave as the mode
+/// says until the parent kills the process.  Never returns.
+fn child_main(ops: &[String], node: &str, mode: &str) -> ! {
+    let node = PathBuf::from(node);
+    let base = node.parent().unwrap().to_path_buf();
+    let mut rep = ChildReport::default();
+    let mut world = None;
+    // scratch space inside the parent's directory: images and the current node directory outlive the kill
+    let scratch = base.join("childtmp");
+    let _ = std::fs::create_dir_all(&scratch);
+    match World::new_at(TmpDir(scratch), node.clone(), true) {
+        Ok(mut w) => {
+            let mut outputs = vec![];
+            if let Err(e) = run_from(&mut w, ops, &mut outputs) {
+                rep.err = Some(e);
+            }
+            w.save_client();
+            rep.outputs = outputs;
+            rep.fails = w.fails.clone();
+            rep.tags = w.tags.clone();
+            rep.lifecycles = w.lifecycles;
+            rep.inconclusive = w.inconclusive.clone();
+            rep.node = w.node.display().to_string();
+            rep.up = w.up();
+            rep.wound = w.inc.as_ref().map(|i| i.wound).unwrap_or(false);
+            if let Some(t) = &w.track {
+                rep.tracked = true;
+                rep.id = t.id.to_string();
+                rep.qid_sql = t.sql.to_string();
+                rep.ncols = t.ncols;
+                rep.planted = t.planted;
+                rep.finished = t.finished;
+                rep.unsubscribed = t.unsubscribed;
+                rep.last_at_finish = t.last_at_finish;
+                rep.late_writes = t.late_writes;
+                rep.client_view = t.client.view.clone();
+                rep.client_last = t.client.last_id;
+                rep.client_eoq = t.client.eoq;
+            }
+            world = Some(w);
+        }
+        Err(e) => rep.err = Some(e),
+    }
+    let tmpf = base.join("child.json.tmp");
+    let _ = std::fs::write(&tmpf, serde_json::to_vec(&rep).unwrap());
+    let _ = std::fs::rename(&tmpf, base.join("child.json"));
+    if let Some(mut w) = world {
+        match mode {
+            "busy" if w.up() => {
+                // keeps the matcher busy with keys the ops never touch
+                let mut present = std::collections::BTreeSet::new();
+                let mut k = PK_DOMAIN;
+                loop {
+                    let sql = if present.contains(&k) {
+                        present.remove(&k);
+                        format!("DELETE FROM t WHERE id = {k}")
+                    } else {
+                        present.insert(k);
+                        format!("INSERT INTO t (id, b) VALUES ({k}, 1)")
+                    };
+                    let _ = w.exec_sql(vec![sql]);
+                    k = if k + 1 >= 2 * PK_DOMAIN { PK_DOMAIN } else { k + 1 };
+                }
+            }
+            "wind" if w.up() && !w.inc.as_ref().unwrap().wound => {
+                let _ = w.op_trip();
+                let _ = std::fs::write(base.join("child.wind"), b"");
+                let _ = w.op_wind();
+                let _ = w.op_exit();
+            }
+            _ => {}
+        }
+        loop {
+            std::thread::sleep(Duration::from_secs(3600));
+            let _ = &w;
+        }
+    }
+    loop {
+        std::thread::sleep(Duration::from_secs(3600));
+    }
+}
+
+fn run_with_kill(ops: &[String], at: usize) -> Result<Outcome, String> {
+    let toks: Vec<&str> = ops[at].split_whitespace().collect();
+    let (mode, n) = match toks.as_slice() {
+        ["kill", m @ ("idle" | "busy" | "wind"), n] => match n.parse::<u64>() {
+            Ok(n) if n <= 100_000 => (*m, n),
+            _ => return run_ops_all_bad(ops, at),
+        },
+        _ => return run_ops_all_bad(ops, at),
+    };
+    let tmp = TmpDir::new("c13k");
+    let node = tmp.path().join("n0");
+    let prefix = tmp.path().join("prefix.ops");
+    std::fs::write(&prefix, format!("# case 0 child\n{}\n", ops[..at].join("\n"))).map_err(|e| e.to_string())?;
+    let exe = std::env::current_exe().map_err(|e| e.to_string())?;
+    let mut child = std::process::Command::new(exe)
+        .args(["C13", "--replay", prefix.to_str().unwrap(), "--out", tmp.path().join("childout").to_str().unwrap()])
+        .env("HX_C13_CHILD_NODE", &node)
+        .env("HX_C13_CHILD_MODE", mode)
+        .stdin(std::process::Stdio::null())
+        .stdout(std::process::Stdio::null())
+        .stderr(std::process::Stdio::null())
+        .spawn()
+        .map_err(|e| format!("spawn child: {e}"))?;
+    let pid = child.id();
+    let cleanup = |child: &mut std::process::Child| {
+        unsafe_kill(pid);
+        let _ = child.wait();
+        // the child's own scratch directories
+        if let Ok(rd) = std::fs::read_dir(crate::crkit::tmp_root()) {
+            for e in rd.flatten() {
+                if e.file_name().to_string_lossy().starts_with(&format!("c13child-{pid}-")) {
+                    let _ = std::fs::remove_dir_all(e.path());
+                }
+            }
+        }
+    };
+    let report = tmp.path().join("child.json");
+    let mut exited_early = false;
+    let ready = wait_until(Duration::from_secs(180), || {
+        if let Ok(Some(_)) = child.try_wait() {
+            exited_early = true;
+            return Ok(true);
+        }
+        Ok(report.exists())
+    })?;
+    if !ready || exited_early {
+        cleanup(&mut child);
+        return Err("the child process did not get through its ops".into());
+    }
+    if mode == "wind" {
+        let mark = tmp.path().join("child.wind");
+        let t0 = Instant::now();
+        while !mark.exists() && t0.elapsed() < LONG {
+            std::thread::sleep(Duration::from_micros(200));
+        }
+        std::thread::sleep(Duration::from_micros(n));
+    } else {
+        std::thread::sleep(Duration::from_millis(n.min(3000)));
+    }
+    cleanup(&mut child);
+    let rep: ChildReport = serde_json::from_slice(&std::fs::read(&report).map_err(|e| e.to_string())?).map_err(|e| e.to_string())?;
+    if let Some(e) = rep.err {
+        return Err(format!("child: {e}"));
+    }
+    let node = if rep.node.is_empty() { node } else { PathBuf::from(&rep.node) };
+    let mut w = World::new_at(tmp, node, false)?;
+    w.fails = rep.fails;
+    w.tags = rep.tags;
+    w.lifecycles = rep.lifecycles;
+    w.inconclusive = rep.inconclusive;
+    w.eoq = true;
+    let mut outputs = rep.outputs;
+    if w.inconclusive.is_some() || outputs.len() < at {
+        return Ok(finish(w, outputs));
+    }
+    let kill_ok = rep.up && !(mode == "wind" && rep.wound);
+    if rep.tracked {
+        let client = ClientState { view: rep.client_view, last_id: rep.client_last, eoq: rep.client_eoq, ..Default::default() };
+        w.track = Some(Track {
+            id: rep.id.parse().map_err(|_| "child reported a bad id")?,
+            sql: sql_static(&rep.qid_sql),
+            ncols: rep.ncols,
+            client,
+            finished: rep.finished,
+            last_at_finish: rep.last_at_finish,
+            unsubscribed: rep.unsubscribed,
+            late_writes: rep.late_writes,
+            held_writes: 0,
+            planted: rep.planted,
+            writes_since_restart: 0,
+            unsub_here: false,
+        });
+    }
+    if !kill_ok {
+        // the model says the op does not apply (node already down / already wound down): nothing was killed in a
+        // state the case can go on from
+        outputs.push("bad-op".into());
+        w.racy = 2;
+    } else {
+        outputs.push("ok".into());
+        let active = w.track.as_ref().map(|t| !t.finished).unwrap_or(false);
+        if mode == "wind" {
+            w.racy = 1;
+            w.origin = Origin::Abrupt { active: false };
+            if let Some(t) = w.track.as_mut() {
+                // whatever the kill left: the log may have grown in the drain
+                t.last_at_finish = None;
+            }
+            w.tags.push(format!("kill:wind:{}", w.track.as_ref().map(|t| meta_state(&w.node, t.id)).unwrap_or_default()));
+        } else {
+            w.origin = Origin::Abrupt { active };
+            w.tags.push(format!("kill:{mode}:{}", w.track.as_ref().map(|t| meta_state(&w.node, t.id)).unwrap_or_default()));
+        }
+    }
+    run_from(&mut w, &ops[at + 1..], &mut outputs)?;
+    Ok(finish(w, outputs))
+}
+
+/// a malformed `kill` op: everything before it runs normally, the op itself is `bad-op`
+fn run_ops_all_bad(ops: &[String], _at: usize) -> Result<Outcome, String> {
+    run_ops(ops)
+}
+
+fn unsafe_kill(pid: u32) {
+    // SIGKILL, the abrupt stop
+    let _ = std::process::Command::new("kill").args(["-9", &pid.to_string()]).status();
 }
 
 impl Prop for C13 {
@@ -1242,8 +1624,18 @@ impl Prop for C13 {
         gen_case(rng, tier, index)
     }
     fn exec_case(&self, ops: &[String]) -> CaseResult {
+        if let (Ok(node), Ok(mode)) = (std::env::var("HX_C13_CHILD_NODE"), std::env::var("HX_C13_CHILD_MODE")) {
+            child_main(ops, &node, &mode);
+        }
         let mut res = CaseResult::default();
-        match run_ops(ops) {
+        let run = match ops.iter().position(|o| o.starts_with("kill ")) {
+            Some(at) => run_with_kill(ops, at),
+            None => run_ops(ops),
+        };
+        match run {
+            Ok(o) if o.inconclusive.is_some() => {
+                res.inconclusive = o.inconclusive;
+            }
             Ok(o) => {
                 let looked = ops.iter().zip(o.outputs.iter()).any(|(op, out)| (op == "subinfo" || op == "check") && out != "bad-op");
                 let restarted = ops.iter().any(|op| op.starts_with("restart "));
@@ -1270,6 +1662,278 @@ impl Prop for C13 {
 // generator
 // ------------------------------------------------------------------------------------------------
 
-fn gen_case(_rng: &mut Rng, _tier: Tier, _index: usize) -> Vec<String> {
-    vec!["sub all".into(), "w 1=1".into(), "sync".into(), "graceful".into(), "restart live".into(), "subinfo".into()]
+struct Gen {
+    ops: Vec<String>,
+    db: BTreeMap<u64, u64>,
+    /// keys with a candidate that may still be waiting
+    inflight: std::collections::BTreeSet<u64>,
+    /// the subscription is registered and served
+    have_sub: bool,
+    eoq: bool,
+    filled: bool,
+    ntag: usize,
+    /// images to come back to at the end: (tag, table at that time, the subscription comes back)
+    later: Vec<(String, BTreeMap<u64, u64>, bool)>,
+    /// a `kill` op has been used (one per case)
+    killed: bool,
+}
+
+impl Gen {
+    fn tag(&mut self, p: &str) -> String {
+        self.ntag += 1;
+        format!("{p}{}", self.ntag)
+    }
+
+    /// one effective transaction on keys that have nothing in flight
+    fn write(&mut self, rng: &mut Rng, pending: bool) {
+        let n = if rng.chance(1, 4) { rng.range(2, 3) } else { 1 };
+        let mut parts = vec![];
+        let mut used = vec![];
+        for _ in 0..n {
+            let mut k = rng.below(PK_DOMAIN);
+            let mut tries = 0;
+            while (self.inflight.contains(&k) || used.contains(&k)) && tries < 64 {
+                k = (k + 1) % PK_DOMAIN;
+                tries += 1;
+            }
+            if self.inflight.contains(&k) || used.contains(&k) {
+                continue;
+            }
+            used.push(k);
+            match self.db.get(&k).copied() {
+                Some(_) if rng.chance(1, 4) => {
+                    self.db.remove(&k);
+                    parts.push(format!("{k}=x"));
+                }
+                Some(old) => {
+                    let v = (old + 1 + rng.below(8)) % 10;
+                    let v = if v == old { (old + 1) % 10 } else { v };
+                    self.db.insert(k, v);
+                    parts.push(format!("{k}={v}"));
+                }
+                None => {
+                    let v = rng.below(10);
+                    self.db.insert(k, v);
+                    parts.push(format!("{k}={v}"));
+                }
+            }
+        }
+        if parts.is_empty() {
+            return;
+        }
+        let synced = !pending && self.have_sub && self.eoq;
+        self.ops.push(format!("{} {}", if pending { "wp" } else { "w" }, parts.join(",")));
+        if self.have_sub && !synced {
+            self.inflight.extend(used);
+        }
+    }
+
+    fn writes(&mut self, rng: &mut Rng, lo: u64, hi: u64, pending: bool) {
+        for _ in 0..rng.range(lo, hi) {
+            self.write(rng, pending);
+        }
+    }
+
+    fn restarted(&mut self, restored: bool) {
+        self.have_sub = restored;
+        self.eoq = true;
+        self.inflight.clear();
+    }
+}
+
+fn gen_case(rng: &mut Rng, tier: Tier, index: usize) -> Vec<String> {
+    let mut g = Gen { ops: vec![], db: BTreeMap::new(), inflight: Default::default(), have_sub: false, eoq: false, filled: false, ntag: 0, later: vec![], killed: false };
+    let lives = match tier {
+        Tier::Quick => rng.range(1, 3),
+        Tier::Thorough => rng.range(1, 4),
+    };
+    // every third case makes the `slow` query's initial run last
+    if index % 3 == 0 || rng.chance(1, 6) {
+        g.ops.push("fill 6000".into());
+        g.filled = true;
+    }
+    if rng.chance(2, 3) {
+        g.writes(rng, 1, 3, false);
+    }
+    let mut planted = false;
+    for life in 0..lives {
+        if !g.have_sub {
+            if life == 0 && !planted && g.ops.iter().all(|o| !o.starts_with("sub")) && rng.chance(1, 12) {
+                // a stop inside `Matcher::create`
+                planted = true;
+                g.ops.push("plant".into());
+                let t = g.tag("p");
+                g.ops.push(format!("snapshot {t}"));
+                g.ops.push(format!("restart {t}"));
+                g.ops.push("subinfo".into());
+                continue;
+            }
+            if planted {
+                break; // the case follows the planted directory only
+            }
+            if g.filled && rng.chance(3, 5) && !g.db.is_empty() {
+                g.ops.push("sub slow nowait".into());
+                g.eoq = false;
+            } else {
+                g.ops.push(format!("sub {}", if g.filled || rng.chance(1, 3) { "slow" } else { "all" }));
+                g.eoq = true;
+            }
+            g.have_sub = true;
+            g.inflight.clear();
+        }
+        // life of the subscription
+        if g.eoq {
+            g.writes(rng, 0, 3, false);
+        } else {
+            g.writes(rng, 0, 2, true);
+            if rng.chance(1, 3) {
+                g.ops.push("sync".into());
+                g.eoq = true;
+                g.inflight.clear();
+                g.writes(rng, 0, 2, false);
+            }
+        }
+        let graceful_share = if tier == Tier::Quick { 35 } else { 45 };
+        let kind = rng.below(100);
+        if kind < graceful_share {
+            // ---- graceful stop, whole or in steps
+            if rng.chance(1, 2) {
+                g.writes(rng, 0, 2, true);
+            }
+            if tier == Tier::Thorough && !g.killed && rng.chance(1, 6) {
+                // SIGKILL somewhere inside the stop sequence: restored or removed, never stale
+                g.killed = true;
+                g.later.clear();
+                let us = match rng.below(4) {
+                    0 => rng.range(0, 300),
+                    1 => rng.range(300, 3000),
+                    2 => rng.range(3000, 20000),
+                    _ => rng.range(20000, 100000),
+                };
+                g.ops.push(format!("kill wind {us}"));
+                g.ops.push("restart live".into());
+                g.ops.push("check".into());
+                break;
+            }
+            if rng.chance(1, 2) {
+                g.ops.push("graceful".into());
+            } else {
+                g.ops.push("trip".into());
+                g.writes(rng, 0, 2, true);
+                if rng.chance(1, 2) {
+                    let t = g.tag("d");
+                    g.ops.push(format!("snapshot {t}"));
+                    g.later.push((t, g.db.clone(), false));
+                }
+                g.ops.push("wind".into());
+                if rng.chance(1, 3) {
+                    let t = g.tag("c");
+                    g.ops.push(format!("snapshot {t}"));
+                    g.later.push((t, g.db.clone(), true));
+                }
+                g.ops.push("exit".into());
+            }
+            g.ops.push("restart live".into());
+            g.restarted(true);
+            g.ops.push("subinfo".into());
+            if rng.chance(2, 3) {
+                g.writes(rng, 1, 2, false);
+                g.ops.push("subinfo".into());
+            }
+        } else if kind < graceful_share + 8 {
+            // ---- unsubscribed, nothing written afterwards, then any stop: comes back as it was
+            if !g.eoq {
+                g.ops.push("sync".into());
+                g.eoq = true;
+                g.inflight.clear();
+            }
+            g.ops.push("unsub".into());
+            g.have_sub = false;
+            if rng.chance(1, 2) {
+                g.ops.push("graceful".into());
+                g.ops.push("restart live".into());
+            } else {
+                let t = g.tag("u");
+                g.ops.push(format!("snapshot {t}"));
+                g.ops.push(format!("restart {t}"));
+            }
+            g.restarted(true);
+            g.ops.push("subinfo".into());
+            g.writes(rng, 1, 1, false);
+            g.ops.push("subinfo".into());
+        } else {
+            // ---- abrupt stop at some phase
+            let phase = rng.below(10);
+            match phase {
+                0..=3 => {
+                    // running (or still in the initial query), maybe with candidates waiting
+                    if rng.chance(2, 3) {
+                        g.writes(rng, 1, 2, true);
+                    }
+                }
+                4 | 5 => {
+                    // draining
+                    if rng.chance(1, 2) {
+                        g.writes(rng, 1, 1, true);
+                    }
+                    g.ops.push("trip".into());
+                    if rng.chance(1, 2) {
+                        g.writes(rng, 1, 2, true);
+                    }
+                }
+                6 | 7 => {
+                    // cancelled, the drain kept open by another clone of the handle
+                    g.ops.push("unsub hold".into());
+                    g.have_sub = false;
+                }
+                _ => {
+                    // quiescent
+                    if !g.eoq {
+                        g.ops.push("sync".into());
+                        g.eoq = true;
+                        g.inflight.clear();
+                    }
+                }
+            }
+            if tier == Tier::Thorough && !g.killed && rng.chance(1, 3) {
+                // the same stop as a real SIGKILL of a child process
+                g.killed = true;
+                g.later.clear();
+                if phase <= 3 && g.eoq && rng.chance(1, 2) {
+                    g.ops.push(format!("kill busy {}", rng.range(20, 900)));
+                } else {
+                    g.ops.push(format!("kill idle {}", rng.range(0, 400)));
+                }
+                g.ops.push("restart live".into());
+            } else {
+                let t = g.tag("a");
+                g.ops.push(format!("snapshot {t}"));
+                g.ops.push(format!("restart {t}"));
+            }
+            g.restarted(false);
+            g.ops.push("subinfo".into());
+        }
+        if g.killed && g.ops.last().map(|o| o == "check").unwrap_or(false) {
+            break;
+        }
+    }
+    // the images set aside on the way
+    let later = std::mem::take(&mut g.later);
+    for (t, db, back) in later {
+        g.db = db;
+        g.ops.push(format!("restart {t}"));
+        g.restarted(back);
+        g.ops.push("subinfo".into());
+        if back {
+            g.writes(rng, 1, 1, false);
+            g.ops.push("subinfo".into());
+        } else if rng.chance(1, 2) {
+            g.ops.push("sub all".into());
+            g.have_sub = true;
+            g.eoq = true;
+            g.writes(rng, 1, 1, false);
+            g.ops.push("subinfo".into());
+        }
+    }
+    g.ops
 }
